@@ -216,6 +216,9 @@ class FakeTCP(asyncio.Transport):
         self.reading_paused = False
         self.fatal = None
         self.write_after_close = 0
+        self.pending = bytearray()
+        self._close_waiting = False
+        self.force_close_time = None
 
     def ev(self, kind, data=None):
         self.log.append({"t": self.loop.time(), "conn": self.conn, "kind": "tcp_" + kind, "data": data})
@@ -232,6 +235,13 @@ class FakeTCP(asyncio.Transport):
     def is_closing(self):
         return self.closing
 
+    # Bounded-pipe model (optional): `capacity` bytes may be in flight towards a client that is not
+    # reading; the rest waits in the transport's userspace buffer exactly as in asyncio's selector
+    # transport: close() lets it drain first, _force_close()/abort() discards it.
+    capacity = None
+    inflight = 0
+    discarded = 0
+
     def write(self, data):
         data = bytes(data)
         if self.closing:
@@ -242,8 +252,32 @@ class FakeTCP(asyncio.Transport):
             return
         self.out += data
         self.ev("write", len(data))
-        if self.sink:
-            self.sink(data)
+        if self.capacity is None:
+            if self.sink:
+                self.sink(data)
+            return
+        self.pending += data
+        self._pump()
+
+    def _pump(self):
+        while self.pending and self.inflight < self.capacity:
+            n = min(len(self.pending), self.capacity - self.inflight)
+            chunk = bytes(self.pending[:n])
+            del self.pending[:n]
+            self.inflight += n
+            if self.sink:
+                self.sink(chunk)
+        if self.closing and not self.pending and self._close_waiting and not self.lost:
+            self._close_waiting = False
+            self.loop.call_soon(self._lost, None)
+
+    def consumed(self, n):
+        """The client read n bytes from its socket buffer: room for more."""
+        self.inflight = max(0, self.inflight - n)
+        self._pump()
+
+    def get_write_buffer_size(self):
+        return len(self.pending)
 
     def close(self):
         if self.closing:
@@ -251,6 +285,9 @@ class FakeTCP(asyncio.Transport):
         self.closing = True
         self.close_time = self.loop.time()
         self.ev("close")
+        if self.pending:
+            self._close_waiting = True  # flush the buffer first, then connection_lost
+            return
         self.loop.call_soon(self._lost, None)
 
     def abort(self):
@@ -259,10 +296,16 @@ class FakeTCP(asyncio.Transport):
     def _force_close(self, exc):
         if self.lost:
             return
+        if self.pending:
+            self.discarded += len(self.pending)
+            self.ev("discarded_unsent", len(self.pending))
+            self.pending = bytearray()
+        self._close_waiting = False
         if not self.closing:
             self.closing = True
             self.close_time = self.loop.time()
-            self.ev("force_close", repr(exc) if exc else None)
+        self.force_close_time = self.loop.time()
+        self.ev("force_close", repr(exc) if exc else None)
         self.loop.call_soon(self._lost, exc)
 
     def _lost(self, exc):
@@ -289,9 +332,6 @@ class FakeTCP(asyncio.Transport):
 
     def set_write_buffer_limits(self, high=None, low=None):
         pass
-
-    def get_write_buffer_size(self):
-        return 0
 
     def get_write_buffer_limits(self):
         return (16384, 65536)
